@@ -139,6 +139,33 @@ def run(rep):
                 rep.configs.append("%s vs %s" % (feats or "default", allc[other]))
             except facts.BuildError as e:
                 rep.lost("CFG-ONE-FN", "CFG-ONE-FN/pair/%s" % feats, "configuration builds", str(e)[-200:])
+    # the equivalence is between "pattern p in the ignore_case build" and "pattern i+p in the default build": it only makes sense for
+    # text the rule author wrote as a string pattern.  into_identifier must not be applied to text the loader made up itself (a number
+    # or boolean rendered with to_string under str()), which cannot carry an `i` prefix.
+    rep.describe("CFG-CALLERS", "into_identifier is only called on the text of a YAML string value")
+    import q as _q
+    from facts import walk, or_pats, pat_binds, strip_ref, subpat
+    ncalls = 0
+    for name, f in sorted(A.fns.items()):
+        if f.thir is None:
+            continue
+        for n in walk(f.body):
+            if call_is(n, "IdentifierParser::into_identifier") and n.get("args"):
+                ncalls += 1
+                src = peel(n["args"][0])
+                while src.get("k") == "Call" and (src.get("fn") or "").endswith(("Clone::clone", "ToOwned::to_owned", "ToString::to_string", "String::from", "From::from")) and src.get("args"):
+                    src = peel(src["args"][0])
+                vid = _q.base_var(src, f.body)
+                okc = False
+                for pat in _q.all_patterns(f.body):
+                    for alt in or_pats(pat):
+                        for pp in _q._walk_pat(alt):
+                            v = variant_of(pp)
+                            if v and v[1] == "String" and v[0] in ("Value", "Yaml") and any(b[1] == vid for b in pat_binds(pp)):
+                                okc = True
+                # a to_string() of something that is not a string payload is exactly what must not happen
+                rep.check(okc, "CFG-CALLERS", "CFG-CALLERS/%s#%d" % (name, ncalls), n["sp"], "the pattern text handed to into_identifier is the payload of a YAML string", show(n["args"][0])[:80])
+    rep.check(ncalls >= 2, "CFG-CALLERS", "CFG-CALLERS/sites", "src/parser.rs", "call sites of into_identifier found", str(ncalls))
     rep.floor("CFG-HEAD", 8)
     rep.floor("CFG-ITEMS", 5)
     rep.exhaustive = True
